@@ -4,6 +4,10 @@
 import json, os, re, subprocess
 ROOT = os.path.dirname(os.path.dirname(os.path.abspath(__file__)))
 RULES = [
+ (r"^fix: C interface", "C20"),
+ (r"aliased operands", "C16"),
+ (r"cut short|leaked the constraints copied so far|space dimension overflow|beyond max_space_dimension", "C14"),
+ (r"limited extrapolations divided by zero", "C08"),
  (r"Time::operator==|reschedule\(\)|less_than\(\)", "C19"),
  (r"CO_Tree\(Iterator|leaked the copied constraints|applied a prefix of the system", "C14"),
  (r"Status::ascii_load|Pointset_Powerset::ascii_load|PIP_Decision_Node::ascii_load", "C15"),
